@@ -316,7 +316,9 @@ func pipelineBodyVia(r *explore.Run, rep *report.R, scName string, nsteps int, a
 	} else {
 		setComposition(s, steps)
 	}
-	inj := &xrh.FaultInjector{Run: r, Reads: true}
+	// A 404 for an existing object is what a lagging cache answers; the
+	// uncached client (API server) never does that.
+	inj := &xrh.FaultInjector{Run: r, Reads: true, NotFoundReads: true, NotFoundFilter: func(c simkube.Call) bool { return c.Client == "xr" }}
 	s.Inj = inj
 	c := s.Client("xr")
 	opts := xrh.XROptions{Cached: c, Runner: fnRunner}
@@ -363,7 +365,9 @@ func pipelineBodyVia(r *explore.Run, rep *report.R, scName string, nsteps int, a
 	// failing pipeline it must leave everything untouched.
 	observeFailed := false
 	for _, f := range inj.Taken {
-		if strings.HasPrefix(f, "get Res") {
+		// (A 404 from the cache is not a failure: the composer then asks the
+		// API server.)
+		if strings.HasPrefix(f, "get Res") && !strings.HasSuffix(f, "not-found") {
 			observeFailed = true
 		}
 	}
@@ -554,7 +558,7 @@ func ptBody(r *explore.Run, rep *report.R, scName string, faults bool) {
 	for _, ref := range xrh.Refs(s.Peek(xrh.XRKey("xr1"))) {
 		refsBefore[ref] = true
 	}
-	inj := &xrh.FaultInjector{Run: r, Reads: true}
+	inj := &xrh.FaultInjector{Run: r, Reads: true, NotFoundReads: true}
 	s.Inj = inj
 	logStart := len(s.Log)
 	inj.Armed = faults
